@@ -9,3 +9,4 @@ def register(*props):
     return deco
 
 import checks_sm  # noqa: E402,F401
+import checks_table  # noqa: E402,F401
